@@ -6,7 +6,7 @@ export CARGO_NET_OFFLINE=true
 unset RUSTC_WRAPPER
 mkdir -p "$ROOT/target" "$ROOT/evidence"
 cd "$ROOT/harness"
-for pkg in vcheck chk_srv chk_cli chk_store chk_sec chk_total; do
+for pkg in vcheck chk_srv chk_cli chk_store chk_sec chk_total chk_persist; do
   cargo build --profile verif -p "$pkg" 2>&1 | tail -2
 done
 # Python extension for C30 (the check rebuilds it itself; this only warms the cache)
